@@ -342,8 +342,11 @@ func (vt *Model) recover() {
 		return
 	}
 	ret := strings.Builder{}
-	ret.WriteString(fmt.Sprintf("cursor row=%d col=%d\n", vt.cursor.row, vt.cursor.col))
-	ret.WriteString(fmt.Sprintf("margin left=%d right=%d\n", vt.margin.left, vt.margin.right))
+	vt.mu.Lock()
+	cur, mar := vt.cursor, vt.margin
+	vt.mu.Unlock()
+	ret.WriteString(fmt.Sprintf("cursor row=%d col=%d\n", cur.row, cur.col))
+	ret.WriteString(fmt.Sprintf("margin left=%d right=%d\n", mar.left, mar.right))
 	ret.WriteString(fmt.Sprintf("%s\n", err))
 	ret.Write(debug.Stack())
 
